@@ -57,6 +57,7 @@ ASSUMPTIONS = [
 
 EPS = [(1, 10), (1, 4), (1, 2), (9, 10), (1, 1), (2, 1)]
 MAX_RIPS = 180
+MAX_RIPS_BIG = 300      # a few larger inputs in the thorough tier (about a minute each in the certified reduction)
 RUNS = 2
 
 
@@ -277,6 +278,18 @@ def generate(rng, tier):
         cases.append(make_case("E", m, [[0, 0], [0, 0], [8, 0], [8, 0], [8, 6]], e, None, None, 2, "boundary:duplicate-points"))
         pts = [[0, 0], [1, 0], [0, 1], [100, 0], [101, 0], [100, 1], [50, 80]]
         cases.append(make_case("X", matrix_of_points(pts, "X"), pts, e, None, None, 3, "boundary:clusters"))
+    if thorough:
+        for i in range(8):
+            n, dim = [(12, 2), (11, 2), (9, 3), (12, 2)][i % 4]
+            e = [(1, 2), (1, 4), (9, 10), (1, 10)][(i // 2) % 4]
+            if i % 2 == 0:
+                m, st = gen_metric_matrix(rng, n)
+                c = make_case("M", m, None, e, None, None, dim, "big:matrix:" + st)
+            else:
+                pts, st = gen_points(rng, n, 2)
+                c = make_case("X", matrix_of_points(pts, "X"), pts, e, None, None, dim, "big:points:X:" + st)
+            c["big"] = True
+            cases.append(c)
     nrand = 2600 if thorough else 330
     for i in range(nrand):
         e = EPS[i % len(EPS)] if rng.random() < 0.9 else rng.choice([(1, 8), (3, 4), (7, 8), (1, 16), (4, 1), (3, 2)])
@@ -350,7 +363,7 @@ def oracle_line(c, order, sx):
     exact = eps_exact(e)
     q = Fraction(e[0], e[1]) if exact else Fraction(float(e[0]) / float(e[1]))
     flags = "" if exact else "A"
-    if c["mini"] is None and c["maxi"] is None and q < 1 and c["dim"] >= 1 and rips_size(c["n"], c["dim"]) <= MAX_RIPS:
+    if c["mini"] is None and c["maxi"] is None and q < 1 and c["dim"] >= 1 and rips_size(c["n"], c["dim"]) <= (MAX_RIPS_BIG if c.get("big") else MAX_RIPS):
         flags += "I"
     flags = flags or "-"
     mat = " ".join(str(x) for row in c["matrix"] for x in row)
@@ -418,6 +431,9 @@ def evaluate(c, cpp, orc, res=None):
     if flagsd["ok"] != "1":
         return ("farthest-point-order", "the order used by the implementation (%s) is not a farthest-point order / the mini cut is inconsistent" % order,
                 "greedy permutation", order)
+    if flagsd.get("lvl") != "1":
+        return ("model:level-wise-vs-traversal", "the two algorithm models of the expansion (level by level / following the simplex-tree traversal) "
+                "disagree for order %s" % order, "equal", "different")
     exact = eps_exact(c["eps"])
     if os.environ.get("C19_SPEC_ONLY"):      # development aid: evaluate the specification only
         pass
@@ -502,6 +518,7 @@ def drop_point(c, i):
     d["n"] = n - 1
     d["matrix"] = [[c["matrix"][a][b] for b in keep] for a in keep]
     d["points"] = [c["points"][a] for a in keep] if c["points"] else None
+    d.pop("big", None)
     return d
 
 
@@ -560,6 +577,8 @@ def check(ctx, replay=None):
             if v2 and v2[0] == kind:
                 c, v = small, v2
         case = {k: c[k] for k in ("ctor", "n", "eps", "mini", "maxi", "dim", "points", "matrix")}
+        if c.get("big"):
+            case["big"] = True
         for _ in lst:
             res.violation(kind, v[1], case, expected=v[2], observed=v[3])
     res.rule = ("one case = (constructor, integer metric, epsilon, mini, maxi, dim_max); distinct = distinct such tuples with n >= 2; each case is "
